@@ -20,4 +20,8 @@ for h in harness harness-plain; do
   cp /repo/Cargo.lock "$h/Cargo.lock"
   (cd "$h" && cargo build --offline)
 done
+# C19: warm the generated-program crate (same seed / size as the quick tier, so the check's cargo build is a no-op)
+python3 tools/gen_sm.py "${VERIF_SEED:-1}" 12 harness-sm
+cp /repo/Cargo.lock harness-sm/Cargo.lock
+(cd harness-sm && cargo build --offline)
 echo setup-ok
